@@ -269,7 +269,7 @@ def selftest(pid, wd, tpath):
 
 def run_check(pid, tier, seed, mc_cfgs, profiles, thorough_profiles, assumptions, mc_types=("static",),
               mc_actions=("MAdd", "MSendCS", "MSendRAA", "MDeliver"), mc_module="ChanMC", mutant_cfgs=(),
-              families=(), thorough_families=(), mc_actions_by_module=None):
+              families=(), thorough_families=(), mc_actions_by_module=None, extra_parts=()):
     t0 = time.time()
     wd = vlib.workdir(pid)
     bins = vlib.build(["channet"])
@@ -377,6 +377,14 @@ def run_check(pid, tier, seed, mc_cfgs, profiles, thorough_profiles, assumptions
     if total_runs and executed == 0:
         raise vlib.ToolError("no script step executed")
 
+    # further parts of the check with their own specification and engine: (name, fn(pid, tier, seed, wd) -> (violations, coverage))
+    parts_cov = {}
+    for pname, fn in extra_parts:
+        pv, pc = fn(pid, tier, seed, wd)
+        nviol += pv
+        parts_cov[pname] = pc
+        vlib.log("[part %s] violations=%d" % (pname, pv))
+
     st = None
     if nviol == 0:
         # self-test on an async trace if there is one (it contains every kind of event)
@@ -397,6 +405,8 @@ def run_check(pid, tier, seed, mc_cfgs, profiles, thorough_profiles, assumptions
         "script_steps_executed": executed, "script_steps_skipped": skipped, "impl_panics": panics,
         "batches": [b[0] for b in batches], "binding_selftest": st, "exhaustive": False,
     }
+    if parts_cov:
+        cov["parts"] = parts_cov
     vlib.write_evidence(pid, tier, seed, "model_checking", cov, assumptions, time.time() - t0, nviol)
     return nviol
 
